@@ -305,7 +305,17 @@ func c16Run(s *sim.Sim, p *sim.Params) {
 		rooms = c16rooms[:1]
 		s.Probe("hot-room-run")
 	}
+	// "sparse room" runs: two connections, one room without a seat limit, and only actors join and
+	// leave it — the room keeps becoming empty while the other connection is joining it
+	sparse := hotRoom && s.Choose(sim.SWork, 3) == 0
+	if sparse {
+		cfg.MaxConnectionsPerRoom = 0
+		s.Probe("sparse-room-run")
+	}
 	nclients := 2 + s.Choose(sim.SWork, 5)
+	if sparse {
+		nclients = 2
+	}
 	var hs []*sim.Handle
 	for ci := 0; ci < nclients; ci++ {
 		id := ci
@@ -318,7 +328,11 @@ func c16Run(s *sim.Sim, p *sim.Params) {
 		ops := make([]op, nops)
 		for i := range ops {
 			o := op{room: rooms[s.Choose(sim.SWork, len(rooms))]}
-			switch r := s.Choose(sim.SWork, 24); {
+			r1 := s.Choose(sim.SWork, 24)
+			if sparse {
+				r1 = []int{8, 9, 13, 14, 15, 16, 8, 15}[s.Choose(sim.SWork, 8)] // broadcasts, pings, sleeps
+			}
+			switch r := r1; {
 			case r < 6:
 				o.kind = "join"
 			case r < 8:
@@ -433,8 +447,15 @@ func c16Run(s *sim.Sim, p *sim.Params) {
 	if hotRoom && nactors < 2 {
 		nactors = 2 + s.Choose(sim.SWork, 2)
 	}
+	if sparse {
+		// the actors start once both connections exist
+		s.Sleep(10 * time.Millisecond)
+	}
 	for ai := 0; ai < nactors; ai++ {
 		nops := 2 + s.Choose(sim.SWork, 8)
+		if sparse {
+			nops += 6
+		}
 		type op struct {
 			kind string
 			room string
@@ -447,6 +468,9 @@ func c16Run(s *sim.Sim, p *sim.Params) {
 			r0 := s.Choose(sim.SWork, 14)
 			if hotRoom && s.Choose(sim.SWork, 2) == 0 {
 				r0 = s.Choose(sim.SWork, 5) // joins and leaves
+			}
+			if sparse {
+				r0 = []int{0, 1, 2, 3, 4, 3, 0, 8}[s.Choose(sim.SWork, 8)]
 			}
 			switch r := r0; {
 			case r < 3:
